@@ -1,8 +1,9 @@
 #!/bin/bash
+ROOT="$(cd "$(dirname "$(readlink -f "$0")")" && pwd)"; export MC_VERIF_ROOT="$ROOT"
 # build one harness variant from /repo's current working tree: build.sh <batch|nobatch|wrap|nobatch-wrap>
 set -e
 v="$1"
-cd /verif/mc
+cd "$ROOT/mc"
 export CARGO_NET_OFFLINE=true RUSTFLAGS="--cfg mipidsi_verif"
 feat=""; prof="--release"
 case "$v" in
@@ -13,7 +14,7 @@ case "$v" in
   *) echo "unknown variant $v" >&2; exit 2 ;;
 esac
 # MIPIDSI_SRC=<dir>: build against a scratch copy of the repository instead of /repo (self-test only)
-tdir=/verif/target/$v; cfgarg=()
+tdir="$ROOT/target/$v"; cfgarg=()
 if [ -n "${MIPIDSI_SRC:-}" ]; then
   tdir="${MC_TARGET_BASE:-/tmp/mc-target}/$v"; cfgarg=(--config "patch.crates-io.mipidsi.path=\"$MIPIDSI_SRC\"")
 fi
